@@ -435,3 +435,50 @@ for m_ in (1, 2, 8):
 for d_ in range(0, 6):
     unit(f"kernels.powers_of[d={d_}]", "src/util.rs", "powers_of", [("scalar", sym("x")), ("max_degree", (lambda d_=d_: d_))],
          (lambda it, recv, a, d_=d_: VArr([P(Sym("x")) ** i for i in range(d_ + 1)], "vec")), lambda res, args, ctx: {"result": res})
+
+
+# ---- closed-form vanishing evaluations over the coset: (g w^i)^d - 1 for i < n
+def vanishing_expected(n, d):
+    g, w = P(Sym("g")), P(Sym("w"))
+    return [reduce_root((g ** d) * (w ** (i * d)) - 1, "w", n) for i in range(n)]
+
+
+def out_vanish(n):
+    def out(res, args, ctx):
+        items = res.items if hasattr(res, "items") else res
+        return {"result": [reduce_root(x, "w", n) for x in items], "exits": list(ctx.exits)}
+    return out
+
+
+for n_ in (4, 8):
+    for d_ in (0, 1, 2, 3, 5, 6, 7):
+        if d_ >= n_:
+            continue
+        u = unit(f"kernels.vanishing_poly_over_coset[n={n_},d={d_}]", DM, "alloc::EvaluationDomain::vanishing_poly_over_coset",
+                 [("self", mk_domain(n_)), ("poly_degree", (lambda d_=d_: d_))],
+                 (lambda it, recv, a, n_=n_, d_=d_: VIter(vanishing_expected(n_, d_))), out_vanish(n_), consts={"GENERATOR": Sym("g")})
+        u.extra_contracts = DOMC
+
+
+def c_matches_vanishing(n, d):
+    def c(it, recv, a):
+        """true iff the degree is below the domain size, there are exactly n evaluations and evaluation i == (g w^i)^d - 1"""
+        ev = a[1]
+        if not (d < n) or len(ev.items) != n:
+            return False
+        exp = dft_free_expected = [(P(Sym("g")) ** d) * (P(Sym("w")) ** (i * d)) - 1 for i in range(n)]
+        for i in range(n):
+            k = it.decided(canon(VOpaque("eq", [ev.items[i], exp[i]])))
+            if k is None:
+                raise OutsideFragment(f"matches_vanishing: evaluation {i} not decided (keys: {it.decided_keys})")
+            if not k:
+                return False
+        return True
+    return c
+
+
+for (n_, d_, m_) in [(4, 1, 4), (4, 3, 4), (4, 2, 3), (4, 4, 4), (8, 5, 8)]:
+    u = unit(f"kernels.matches_vanishing_poly_over_coset[n={n_},d={d_},len={m_}]", DM, "alloc::EvaluationDomain::matches_vanishing_poly_over_coset",
+             [("self", mk_domain(n_)), ("poly_degree", (lambda d_=d_: d_)), ("evaluations", mk_arr("e", m_))],
+             c_matches_vanishing(n_, d_), lambda res, args, ctx: {"result": res, "exits": list(ctx.exits)}, consts={"GENERATOR": Sym("g")}, path_dependent=True)
+    u.extra_contracts = DOMC
